@@ -28,8 +28,8 @@ claim('C33', 'E2', 'exhaustive enumeration of all byte strings over a frame alph
 claim('C34', 'E2', 'exhaustive enumeration of channel names (bounded length over a brace/dot/colon alphabet) x prefixes x partitioning modes on the real key builders against an independent hash-tag + CRC16 slot function',
       'For every channel name up to the stated length, prefix and partitioning configuration, all keys and the PUB/SUB channel of each script call built by the real Redis broker / map broker / presence key builders are hashed by an independent Redis-cluster slot function and must share one slot; extractChannel must invert messageChannelID.',
       'Key builders are driven in-package without a Redis connection; which keys form one script call is transcribed from the call sites.')
-claim('C35', 'E2', 'complete enumeration of every precomputed partition count, tag and cluster size against an independent CRC16/XMODEM and Redis slot allocation',
-      'Complete: every bundled partition count x every cluster size up to it, every tag; slots distinct, equal to an independent CRC16 implementation, per-node counts differ by at most one.',
+claim('C35', 'E2+E1', 'complete enumeration of every precomputed partition count, tag and cluster size against an independent CRC16/XMODEM and Redis slot allocation; stateless DFS (preemption bound 2) over 2-3 concurrent first callers of a cold package with scheduling points at package-level variables',
+      'Complete: every bundled partition count x every cluster size up to it, every tag; slots distinct, equal to an independent CRC16 implementation, per-node counts differ by at most one. Concurrent variant: the package-level variables are re-initialised before every execution and 2-3 threads call FindTags / TagSlot / SlotToNode at once; every interleaving within the bound must give the reference slots.',
       'Two slot-allocation models (even split and redis-cli --cluster create) stand in for a real cluster.')
 
 E1_NOTE = 'One node (Memory broker/presence), 1-2 connections, 2-3 concurrent operations; scheduling points are lock/atomic/channel/timer operations plus harness doubles; verification-build constants (lock tables) shrunk; Redis paths not executed.'
@@ -71,8 +71,8 @@ claim('C24', 'E1', 'stateless DFS over interleavings of the expiry sweep (two ph
 claim('C27', 'E2', 'exhaustive enumeration of option subsets x targeting modes of Node.Subscribe/Unsubscribe/Disconnect/Refresh with the target connection on the calling node vs on another node (loop-back controller)',
       'Every option subset up to size 3-4 and every targeting mode; resulting channel context, pushes and disconnects must be equal in both placements.',
       'Two in-process nodes joined by a loop-back Controller double.')
-claim('C28', 'E2', 'exhaustive enumeration of targeting modes x subscription configurations for Node.Unsubscribe(user, "")',
-      'Every targeting mode x 27 subscription configurations x 2 connections; afterwards no channel may remain and every former channel must have had its callback, leave, presence removal and unsubscribe push.',
+claim('C28', 'E2+E1', 'exhaustive enumeration of targeting modes x subscription configurations for Node.Unsubscribe(user, ""); stateless DFS (delay bound 2-3, two default thread orders) over an unsubscribe-all racing a subscribe followed by a second unsubscribe-all',
+      'Every targeting mode x 27 subscription configurations x 2 connections; afterwards no channel may remain and every former channel must have had its callback, leave, presence removal and unsubscribe push. Race variants: every interleaving within the bound of Node.Unsubscribe(u, "") with Node.Subscribe(u, b) + a second unsubscribe-all (by user, by session, Client.Unsubscribe("")); at quiescence nothing may be left.',
       'Single node and loop-back remote node.')
 claim('C29', 'E2', 'exhaustive enumeration of frame sequences (length <= 2-3 over a 47-49 frame alphabet), every truncation, header bit products and read limits on the real websocket reader against an independent RFC 6455/7692 decoder',
       'Every sequence/truncation/configuration; same data messages as the reference, every protocol violation answered with an error and a 1002 close frame, limits with 1009, no panic.',
